@@ -45,6 +45,9 @@ checks = {
  "C10": dict(design="4/C10",
    text="Differential: the same symbolic input is parsed under 5.6 and 7.2 on one path; when both report no error and the token stream contains none of the constructs regrouped by PHP 7's uniform variable syntax (variable-variables, static/dynamic member chains, new with a member chain, yield, empty list()), the two trees must be equal including tokens, free-floating tokens and positions (SMT for symbolic bytes). Inputs: every corpus snippet as written and with symbolic trivia in its gaps, plus the short shapes.",
    note="5.6 vs 7.2 so that the 7.3 heredoc change is not mistaken for a grammar difference. The exclusion list is written down in harness/h_corpus.go (notSharedSyntax) and every path dropped by it is counted under reachability_covers. The PHP 5 goto-label position is a known finding."),
+ "C17": dict(design="4/C17",
+   text="For every corpus snippet accepted by the parser (both grammars), as written and with symbolic trivia in its inter-token gaps: parse, format, print, parse again on one path; asserted: no panic, the formatted text parses without errors, the second tree equals the first in kinds, nesting and values (SMT for symbolic bytes), formatting and printing the second tree reproduces the same bytes (idempotence), and the formatted text equals the formatted text of the unmodified snippet (canonicity: independent of the symbolic trivia).",
+   note="Program shapes are the corpus; one gap at a time. Ten signatures are known findings (inline HTML, heredoc flavour/placement, ${ } forms, braced empty namespaces); seven small formatter defects were repaired with fix: commits."),
 }
 na = {}
 ALL = ["C%02d" % i for i in range(1, 19)]
